@@ -466,6 +466,10 @@ def check_class(case):
                         f"specular_{name}={float(s[p])!r} emissivity/transmission_{name}={float(t[p])!r}", "both in [0,1]"))
         elif s[p] + t[p] > 1 + SLACK:
             out.append((f"{key0}:budget", f"specular_{name}+transmission_{name}={float(s[p] + t[p])!r}", "<= 1"))
+        elif (module == "coherent_flat" and case["e1"][1] == 0 and case["e2"][1] == 0 and case["slab"][0][1] == 0
+              and not case.get("total_reflection") and abs(s[p] + t[p] - 1) > 1e-6):
+            out.append(("coherent_flat:lossless", f"loss-free slab between loss-free media, whatever its thickness: specular_{name}+transmission_{name}="
+                        f"{float(s[p] + t[p])!r}", "1 (nothing is absorbed, nothing is scattered)"))
         elif module in SPECULAR_EXACT and abs(s[p] + t[p] - 1) > SLACK:
             out.append((f"{key0}:budget", f"specular_{name}+emissivity_{name}={float(s[p] + t[p])!r}", "1 (purely specular model)"))
     if module in ("reflector", "reflector_backscatter"):
@@ -702,6 +706,12 @@ def oracle(ctx, hints, effort):
     # the smallest known way to break the slab pseudo-interface: zero thickness, vacuum above, eps = 3+4j below, normal incidence
     record({"kind": "class", "side": "interface", "module": "coherent_flat", "f": 10e9, "e1": [1.0, 0.0], "e2": [3.0, 4.0], "mu": 1.0,
             "how": "normal", "npol": 2, "kw": {}, "slab": [[1.0, 0.0], 0.0]})
+    # loss-free slabs from a fraction of a wavelength to many wavelengths thick (beyond the coherency limit of 3 pi / 4 of phase too), seen from air
+    # towards denser loss-free media: what is not reflected is transmitted
+    for d_ in (0.0005, 0.004, 0.02, 0.1):
+        for mu_ in (1.0, 0.6):
+            record({"kind": "class", "side": "interface", "module": "coherent_flat", "f": 10e9, "e1": [1.0, 0.0], "e2": [2.0, 0.0], "mu": mu_,
+                    "how": "normal", "npol": 2, "kw": {}, "slab": [[3.1, 0.0], d_]})
     # the fixed witness of the slightly negative transmissivity of the geometrical-optics backscatter model (quadrature of the hemispherical
     # integral; grazing incidence from the denser medium)
     for side in ("interface", "substrate"):
